@@ -1,7 +1,34 @@
-/- Driver entry for property C09: one request payload in, one canonical response line out. -/
+/-
+Driver entry for property C09.
+  request : `spec <cr> <entry> <fmt> <kind> <otype> <name>`
+            <cr> = `-` or a comma separated list of `otype:entry:fmt` triples whose class-level codec raises by itself
+  response: the canonical text of `Molli.Model.Dispatch.spec cr cell`
+-/
 import Molli.Util.Basic
+import Molli.Model.Dispatch
 namespace Molli.Driver.C09
+open Molli.Model.Dispatch
 
-def handle (_payload : String) : String := "err:not-implemented"
+def parseTriple (s : String) : Option (OType × Entry × Fmt) :=
+  match s.splitOn ":" with
+  | [o, e, f] =>
+    match OType.parse? o, Entry.parse? e, Fmt.parse? f with
+    | some o, some e, some f => some (o, e, f)
+    | _, _, _ => none
+  | _ => none
+
+def parseCr (s : String) : Option (List (OType × Entry × Fmt)) :=
+  if s == "-" then some [] else (s.splitOn ",").mapM parseTriple
+
+def crOf (l : List (OType × Entry × Fmt)) : ClassRaises :=
+  fun o e f => l.any (fun t => decide (t = (o, e, f)))
+
+def handle (payload : String) : String :=
+  match Molli.Util.words payload with
+  | ["spec", cr, e, f, k, o, n] =>
+    match parseCr cr, Entry.parse? e, Fmt.parse? f, Kind.parse? k, OType.parse? o, NameArg.parse? n with
+    | some cr, some e, some f, some k, some o, some n => (spec (crOf cr) ⟨e, f, k, o, n⟩).txt
+    | _, _, _, _, _, _ => "err:syntax"
+  | _ => "err:syntax"
 
 end Molli.Driver.C09
